@@ -8,21 +8,78 @@ import C05_walk
 PROP_FILES = ["Properties_C14.v"]
 
 
+def run_twr_logs(ctx):
+    """(c) threaded writer: programs x schedules of the C06 scheduling harness (real threads, one runnable at a time, the
+    next one taken from the schedule); the complete backend write log of each run is fed to the same extracted checker."""
+    import os
+    import C06
+    C06.twr_build(ctx)
+    nprog, nsched = (24, 4) if ctx.tier == "quick" else (100, 12)
+    cases, progs, labels = C06.gen_cases(ctx, nprog, nsched)
+    cases = [c for c in cases if c["sig"] is None]          # scenarios of recorded C06/C07 findings are judged there
+    # generated cases (PRNG schedules): every backend write is an additional scheduling point (option wy=1), so another thread can run
+    # between the header, payload and footer writes of one chunk; corpus cases carry explicit schedules and are run as they are
+    for c in cases:
+        if not c.get("corpus"):
+            f = c["line"].split("|")
+            if len(f) >= 5 and not f[4].strip():
+                f[1] = (f[1] + " wy=1").strip()
+                c["line"] = "|".join(f)
+    os.environ["TWR_WLOG"] = "1"
+    n_ok = n_fail = n_nolog = 0
+    try:
+        for q in C06.SIZES:
+            sub = [c for c in cases if c["size"] == q]
+            if not sub:
+                continue
+            outs = C06.run_twr(ctx, "plain", q, [c["line"] for c in sub])
+            shards = max(1, min(vlib.NPROC, len(sub)))
+            per = (len(sub) + shards - 1) // shards
+            paths = [os.path.join(ctx.tmp, "twr_plain_%d_%d" % (q, j // per), "wlog_%d.log" % (j % per + 1)) for j in range(len(sub))]
+            have = [(c, o, pth) for c, (o, e), pth in zip(sub, outs, paths) if os.path.exists(pth)]
+            n_nolog += len(sub) - len(have)
+            verdicts = C05_walk.check_logs(ctx, [pth for (_, _, pth) in have])
+            for (c, o, pth), v in zip(have, verdicts):
+                ok = v.startswith("OK")
+                ctx.count("twr:" + c["line"].split("|", 1)[1][:400], nontrivial=True, sample={"case": c["line"][:300], "checklog": v[:160]})
+                if ok:
+                    n_ok += 1
+                    continue
+                n_fail += 1
+                if n_fail <= 4:
+                    ctx.violation("c14_twr_%s.txt" % c["name"],
+                                  "threaded writer, queue of %d bytes; case line (name|opts|producer 0|producer 1|schedule):\n%s\n\nreplay:\n  mkdir -p /tmp/x; echo '<line>' | TWR_WLOG=1 %s /tmp/x ; "
+                                  "echo /tmp/x/wlog_1.log | %s/jlsmodel checklog\n\nchecker verdict: %s\nharness result: %s\n"
+                                  % (q, c["line"], C06.twrrun("plain", q), vlib.BUILD, v, o[:600]),
+                                  "threaded writer: backend write log rejected by the write-once checker: " + v[:200])
+                try:
+                    os.unlink(pth)
+                except OSError:
+                    pass
+    finally:
+        os.environ.pop("TWR_WLOG", None)
+    ctx.extra["threaded_writer_logs"] = {"runs_checked": n_ok + n_fail, "accepted": n_ok, "rejected": n_fail, "runs_without_log": n_nolog,
+                                         "programs": len(progs), "schedules_per_program": nsched}
+
+
 def run(ctx):
     vlib.build(ctx, PROP_FILES, variants=("plain",))
     C05_walk.run_walk(ctx, parts=("log",), with_reader=False)
+    run_twr_logs(ctx)
     # tie of the byte-exact writer model (coq/WriterModel.v): its complete write log must equal the implementation's
     import WM
     WM.run_wm(ctx, n=60 if ctx.tier == "quick" else 800)
     ctx.cov["rule"] = ("(a) writer programs as C05; the complete interposed sequence of backend write(2)/ftruncate calls of each run is fed to the extracted verified "
                        "checker wo_check_log (strict, including payload_prev_length); "
                        "(b) WM.gen_case programs: the write log (every truncate/write/fsync with offset and bytes) and every return code produced by the extracted "
-                       "byte-exact writer model coq/WriterModel.v are compared with the implementation's; distinct = script")
+                       "byte-exact writer model coq/WriterModel.v are compared with the implementation's; distinct = script; "
+                       "(c) threaded writer: generated producer programs x schedules (C06's deterministic scheduling harness, queue of 512/4096 bytes): the complete "
+                       "backend write log of every run is fed to the same checker")
     if ctx.tier == "thorough":
         vlib.coqchk(ctx, ["Properties_C14"])
     return vlib.finish(ctx, "proof", "make -C /verif/coq -f Makefile.coq Properties_C14.vo; coqc -Q . JLS Properties_C14.v",
                        note="verified checker applied to every observed log; that every log the writer can produce passes is not proved (no byte-level writer theorem yet). "
-                            "The threaded writer's logs are covered by C06.")
+                            "Threaded-writer runs are sampled schedules (not all interleavings); C06 proves the protocol that serialises file access.")
 
 
 def replay(ctx, path):
